@@ -254,6 +254,37 @@ pub fn c07_relations(args: &Args, s: &mut Summary) {
                 lines.swap(a, b);
             }
             variants.push(lines.join("\n").into_bytes());
+            // sections in an unusual ORDER and sections that come TWICE (a value a decoder takes from another
+            // section, e.g. the mode, may be known late or change after it was used)
+            let mut blocks: Vec<String> = vec![];
+            for l in text.lines() {
+                if l.starts_with('[') || blocks.is_empty() {
+                    blocks.push(String::new());
+                }
+                let b = blocks.last_mut().unwrap();
+                b.push_str(l);
+                b.push('\n');
+            }
+            if blocks.len() > 3 {
+                let head = blocks.remove(0);
+                let mut rev = blocks.clone();
+                rev.reverse();
+                variants.push(format!("{head}{}", rev.concat()).into_bytes());
+                let mut sh = blocks.clone();
+                for _ in 0..6 {
+                    let (a, b) = (rng.below(sh.len()), rng.below(sh.len()));
+                    sh.swap(a, b);
+                }
+                variants.push(format!("{head}{}", sh.concat()).into_bytes());
+                let extra = format!("[General]\nMode: {}\nSampleSet: {}\nSampleVolume: {}\n[Difficulty]\nSliderMultiplier:{}\nCircleSize:{}\n",
+                                    rng.below(4), rng.pick(&["Soft", "Drum", "Normal"]), rng.pick(&["30", "100", "0"]), rng.pick(&["0.8", "2.6", "1"]),
+                                    rng.pick(&["20", "4", "-1"]));
+                variants.push(format!("{head}{}{extra}", blocks.concat()).into_bytes());
+                let at = rng.below(blocks.len());
+                let mut mid = blocks.clone();
+                mid.insert(at, extra.clone());
+                variants.push(format!("{head}{}", mid.concat()).into_bytes());
+            }
         }
         for v in variants {
             let d = guarded(&format!("c07 {name}"), || crate::framing::c07_diffs(&v));
